@@ -674,7 +674,7 @@ func c12DiffCases(c *Ctx, run *c12Runner) error {
 		}
 	}
 	// lengths up to 64 (a few up to 160) over small alphabets / periodic / derived: in-Coq suffix array
-	n := c12N(c, 400, 8000, 3000)
+	n := c12N(c, 400, 6000, 3000)
 	for i := 0; i < n; i++ {
 		cr := r.Fork()
 		maxLen := 64
@@ -689,7 +689,7 @@ func c12DiffCases(c *Ctx, run *c12Runner) error {
 		}
 	}
 	// up to 4 KiB: tabulated search
-	n = c12N(c, 32, 600, 150)
+	n = c12N(c, 32, 450, 150)
 	for i := 0; i < n; i++ {
 		cr := r.Fork()
 		maxLen := []int{300, 1024, 4096}[cr.Intn(3)]
@@ -791,7 +791,7 @@ func c12ClassHead(s string) string {
 
 func c12PatchCases(c *Ctx, run *c12Runner) error {
 	r := c.Rng.Fork()
-	n := c12N(c, 250, 5000, 2000)
+	n := c12N(c, 250, 4000, 2000)
 	for i := 0; i < n; i++ {
 		cr := r.Fork()
 		var old []byte
